@@ -498,6 +498,16 @@ func GoNamed(name string, fn func()) {
 	s.wait(alwaysReady, "go")
 }
 
+// SpawnFromTimer starts a managed goroutine from inside a timer callback
+// (which runs in the scheduler, not in a goroutine): no scheduling point.
+func SpawnFromTimer(name string, fn func()) {
+	s := active()
+	if s == nil {
+		return
+	}
+	s.newG(fmt.Sprintf("%s#%d", name, len(s.gs)), fn, nil)
+}
+
 // Name returns the name of the running goroutine.
 func Name() string {
 	if s := active(); s != nil {
@@ -1153,6 +1163,135 @@ func (w *WaitGroup) Wait() {
 	s.wait(func() bool { return w.n == 0 }, "waitgroup wait")
 	if s.opts.Race && w.vc != nil {
 		s.cur.vc.join(w.vc)
+	}
+}
+
+// Cond is the controlled sync.Cond.
+type Cond struct {
+	L       Locker
+	waiters []*condWaiter
+}
+
+// Locker is sync.Locker.
+type Locker interface {
+	Lock()
+	Unlock()
+}
+
+type condWaiter struct{ woken bool }
+
+func NewCond(l Locker) *Cond { return &Cond{L: l} }
+
+func (c *Cond) Wait() {
+	s := active()
+	if s == nil {
+		return
+	}
+	w := &condWaiter{}
+	c.waiters = append(c.waiters, w)
+	c.L.Unlock()
+	s.wait(func() bool { return w.woken }, "cond wait")
+	c.L.Lock()
+}
+
+func (c *Cond) Signal() {
+	if s := active(); s != nil {
+		s.wait(alwaysReady, "cond signal")
+	}
+	if len(c.waiters) > 0 {
+		c.waiters[0].woken = true
+		c.waiters = c.waiters[1:]
+	}
+}
+
+func (c *Cond) Broadcast() {
+	if s := active(); s != nil {
+		s.wait(alwaysReady, "cond broadcast")
+	}
+	for _, w := range c.waiters {
+		w.woken = true
+	}
+	c.waiters = nil
+}
+
+// Pool is the controlled sync.Pool (LIFO, never drops: a superset of what
+// sync.Pool may do is not needed to find sharing bugs, reuse is what matters).
+type Pool struct {
+	New   func() any
+	items []any
+	m     Mutex
+}
+
+func (p *Pool) Get() any {
+	p.m.Lock()
+	defer p.m.Unlock()
+	if n := len(p.items); n > 0 {
+		x := p.items[n-1]
+		p.items = p.items[:n-1]
+		return x
+	}
+	if p.New != nil {
+		return p.New()
+	}
+	return nil
+}
+
+func (p *Pool) Put(x any) {
+	p.m.Lock()
+	p.items = append(p.items, x)
+	p.m.Unlock()
+}
+
+// Map is the controlled sync.Map.
+type Map struct {
+	m  map[any]any
+	mu Mutex
+}
+
+func (m *Map) Load(k any) (any, bool) {
+	m.mu.Lock()
+	defer m.mu.Unlock()
+	v, ok := m.m[k]
+	return v, ok
+}
+
+func (m *Map) Store(k, v any) {
+	m.mu.Lock()
+	defer m.mu.Unlock()
+	if m.m == nil {
+		m.m = map[any]any{}
+	}
+	m.m[k] = v
+}
+
+func (m *Map) LoadOrStore(k, v any) (any, bool) {
+	m.mu.Lock()
+	defer m.mu.Unlock()
+	if m.m == nil {
+		m.m = map[any]any{}
+	}
+	if old, ok := m.m[k]; ok {
+		return old, true
+	}
+	m.m[k] = v
+	return v, false
+}
+
+func (m *Map) Delete(k any) {
+	m.mu.Lock()
+	defer m.mu.Unlock()
+	delete(m.m, k)
+}
+
+func (m *Map) Range(f func(k, v any) bool) {
+	m.mu.Lock()
+	keys := MapKeys(m.m)
+	m.mu.Unlock()
+	for _, k := range keys {
+		v, ok := m.Load(k)
+		if ok && !f(k, v) {
+			return
+		}
 	}
 }
 
